@@ -252,7 +252,7 @@ def run(ctx):
     t = time.time()
     gs = gen_cases(ctx, nG, 3)
     stream_exact(ctx, gs, 3 if quick else 4, seeds)
-    bg = [M.rand_grammar(ctx.rng, boolean=True, pnull=0.2, punary=0.25) for _ in range(nG)]
+    bg = [M.rand_grammar(ctx.rng, boolean=True, pnull=0.2, punary=0.25) for _ in range(nG)] + [M.rand_leftcorner_grammar(ctx.rng) for _ in range(nG // 2)]
     stream_bool(ctx, bg, 3, seeds[:2])
     stream_float(ctx, 25 if quick else 300, 3)
 
